@@ -176,6 +176,17 @@ def scheme_extreme_ratio(rng):
     return [[0., 1., q, 0., 1., q], [q, q, 0., q, q, 0.]]
 
 
+def scheme_big_t5(rng):
+    """tying two elements that are both unranked is expensive (T[5] > B[5]), everything else moderate"""
+    b = rng.choice([1.0, 2.0])
+    t = rng.choice([0.5, 1.0]) * b
+    t5 = rng.choice([2.0, 3.0, 5.0, 8.0])
+    b5 = rng.choice([0.0, 0.0, 0.5])
+    b3 = rng.choice([0.0, 0.5])
+    t34 = rng.choice([0.0, 0.5, 1.0])
+    return [[0., b, rng.choice([t, b]), b3, b3 + rng.choice([0.0, 1.0]), b5], [t, t, 0., t34, t34, t5]]
+
+
 def scheme_decimal(rng):
     return scheme_random(rng, grid=DECIMAL)
 
@@ -191,6 +202,7 @@ SCHEME_CLASSES = {
     "S1": scheme_preset, "S2": scheme_preset_multiple, "S3": scheme_random, "S4": scheme_perturbed,
     "S5": scheme_lookalike, "S6": scheme_degenerate, "S7": scheme_decimal, "S8": scheme_threshold,
     "S9": scheme_free_ties, "S10": scheme_near_tie, "S11": scheme_ratio_band, "S12": scheme_extreme_ratio,
+    "S13": scheme_big_t5,
 }
 
 
@@ -459,6 +471,24 @@ def _dataset(rng, cls, n, m, names, nmax, mmax):
                 else:
                     r.append([e])
             ds.append(r)
+        return ds
+    if cls == "D21":     # profile twins: pairs of elements that sit in the same bucket wherever they appear and are absent
+        ds = _dataset(rng, rng.choice(["D3", "D3", "D4", "D2"]), n, max(m or 3, 3), names, nmax, mmax)    # together
+        uni = ref.universe(ds)
+        if len(uni) >= 3:
+            a, b = rng.sample(uni, 2)
+            out = []
+            for r in ds:
+                r2 = [[e for e in bk if e != b] for bk in r]
+                r2 = [bk + [b] if a in bk else bk for bk in r2]
+                r2 = [bk for bk in r2 if bk]
+                if rng.random() < 0.45:          # this ranking lacks both twins
+                    r2 = [[e for e in bk if e not in (a, b)] for bk in r2]
+                    r2 = [bk for bk in r2 if bk]
+                out.append(r2)
+            if not any(a in bk for r in out for bk in r):
+                out.append([[a, b]])
+            ds = out
         return ds
     if cls == "D20":     # blocks with cyclic majorities whose members FIRST appear together in one tied bucket, over int
         # labels that collide in small hash tables: the iteration order of a bucket differs from the order of its
